@@ -22,9 +22,6 @@ var _ tree = (*treeSimple)(nil)
 
 func newTreeSimple(cfg *config) tree {
 	growerFactory := func(lastNodeFormat, intermedialNodeFormat branchFormat, dryrun bool, encode encode) growerSimple {
-		if encode != encodeDefault {
-			return newNopGrowerSimple()
-		}
 		return newGrowerSimple(lastNodeFormat, intermedialNodeFormat, dryrun)
 	}
 
@@ -79,20 +76,32 @@ func newTreeSimple(cfg *config) tree {
 	}
 }
 
+// outputGrower returns the grower for output: JSON/YAML/TOML need no branches, so nothing is grown
+// for them. Every other operation (mkdir, verify, walk) needs the branches and paths whatever
+// encode option was passed.
+func (t *treeSimple) outputGrower(cfg *config) growerSimple {
+	if cfg.encode != encodeDefault {
+		return newNopGrowerSimple()
+	}
+	return t.grower
+}
+
 func (t *treeSimple) output(w io.Writer, r io.Reader, cfg *config) error {
+	grower := t.outputGrower(cfg)
+
 	// ベンチマークを取るための
 	if cfg.noUseIterOfSimpleOutput {
 		roots, err := newRootGeneratorSimple(r).generate()
 		if err != nil {
 			return err
 		}
-		if err := t.grower.grow(roots); err != nil {
+		if err := grower.grow(roots); err != nil {
 			return err
 		}
 		return t.spreader.spread(w, roots)
 	}
 
-	for err := range t.spreader.spreadIter(w, t.grower.growIter(newRootGeneratorSimple(r).generateIter())) {
+	for err := range t.spreader.spreadIter(w, grower.growIter(newRootGeneratorSimple(r).generateIter())) {
 		if err != nil {
 			return err
 		}
@@ -102,7 +111,7 @@ func (t *treeSimple) output(w io.Writer, r io.Reader, cfg *config) error {
 
 func (t *treeSimple) outputProgrammably(w io.Writer, root *Node, cfg *config) error {
 	if cfg.encode != encodeDefault {
-		if err := t.grower.grow([]*Node{root}); err != nil {
+		if err := t.outputGrower(cfg).grow([]*Node{root}); err != nil {
 			return err
 		}
 		return t.spreader.spread(w, []*Node{root})
